@@ -75,7 +75,8 @@ def run(ctx):
             every_stmt = any(('enumerate(p1)' == f or f == 'p1') for f in fa)
             every_promise = any('minimum_value_promises' in f and not any(b in f for b in ('skip(', 'take(', 'rev(')) for f in fa)
             # the only condition on the path to the test is the `bits < 64` half of the guard itself
-            only_bits = unconditional(r, lambda x: x[0] == 'cmp' and x[1] == 'Le' and x[3].isdigit() and 'gens_capacity' in x[2])
+            only_bits = unconditional(r, lambda x: (x[0] == 'cmp' and x[1] == 'Le' and x[3].isdigit() and 'gens_capacity' in x[2]) or
+                                      (x[0] == 'succ' and 'minimum_value_promises' in x[1]))        # the test applies to Some(promise) only
             rep.check(every_stmt and every_promise and only_bits and r['eff'] != 'bypass', 'R-C07-4', 'R-C07-4/range-guard/quantifier',
                       'the promise range guard covers every statement of the batch and every Some promise', 'the promise range guard ranges over %s' % fa, ctx.where(cons, r['guard'].bb))
             bits = "p1['first'].generators.bp_gens.gens_capacity"
